@@ -50,6 +50,9 @@
 //
 // Results on the unchanged tree (reproductions: harness/c04_muhad_repro.cc):
 //  F1 chips:backward-limit(cos<-1)-nan          - genuine, cos(theta) not clamped -> NaN state
+//  Production cuts: only the particle type the model reads (ioni: electron, mubrems: gamma, coulomb:
+//  electron) carries the lattice letter `cut`; the other particle type of the table gets
+//  other_cut(cut) != cut.
 //  F2 (observation, not a violation of C04 as stated) bragg-icru73qo delta rays below the user cut:
 //     the model's own threshold is min(cut, ..); only T >= min_secondary_energy() is required
 //  O1 observation ioni:forward-limit(cos_e>1)-nan - IoniFinalStateHelper has no clamp either, but
@@ -111,6 +114,15 @@ constexpr uint64_t max_words = 10000;
 
 double nxt(double x) { return std::nextafter(x, INFINITY); }
 double prv(double x) { return std::nextafter(x, -INFINITY); }
+
+// Production cut given to the particle type whose cut the model under test must NOT read
+// (ionisation: gamma; mu-brems: electron; Coulomb: positron): never equal to `cut`, so that a cut
+// looked up with the wrong particle id moves the interact/unchanged switch and the
+// secondary-below-threshold oracle.
+inline double other_cut(double cut)
+{
+    return cut == 1e-3 ? 1e-2 : 1e-3;
+}
 
 struct Script
 {
@@ -584,7 +596,8 @@ void run_ioni(Ctx& C, IoniSpec const& S)
             add_switch(thr, [&](double e) { return ioni_tmax(me, M, e) > tmin_alt; }, elo, S.ehi);
         std::vector<double> const energies
             = vf::energy_alphabet(elo, S.ehi, C.thorough ? 12 : 6, thr);
-        env.set_cutoffs({{pdg::electron(), MevEnergy{cut}}, {pdg::gamma(), MevEnergy{cut}}});
+        // the cut of the particle the model must NOT read is a different number
+        env.set_cutoffs({{pdg::electron(), MevEnergy{cut}}, {pdg::gamma(), MevEnergy{other_cut(cut)}}});
 
         for (double E : energies)
         {
@@ -781,7 +794,8 @@ void run_mubrems(Ctx& C)
                            elo, ehi_model);
                 std::vector<double> const energies
                     = vf::energy_alphabet(elo, ehi_model, C.thorough ? 8 : 6, thr);
-                env.set_cutoffs({{pdg::gamma(), MevEnergy{cut}}, {pdg::electron(), MevEnergy{cut}}});
+                env.set_cutoffs(
+                    {{pdg::gamma(), MevEnergy{cut}}, {pdg::electron(), MevEnergy{other_cut(cut)}}});
                 for (double E : energies)
                 {
                     std::string const cid
@@ -942,8 +956,8 @@ void run_coulomb(Ctx& C)
                     thr.push_back(is_electron ? 2 * cut : cut);
                     std::vector<double> const energies
                         = vf::energy_alphabet(elo, ehi_model, C.thorough ? 8 : 6, thr);
-                    env.set_cutoffs(
-                        {{pdg::electron(), MevEnergy{cut}}, {pdg::positron(), MevEnergy{cut}}});
+                    env.set_cutoffs({{pdg::electron(), MevEnergy{cut}},
+                                     {pdg::positron(), MevEnergy{other_cut(cut)}}});
                     for (double E : energies)
                     {
                         std::string const cid = fmt("%s|%s|%s/%d/%d|cut=%a|E=%a", mdl.c_str(), cf.name,
